@@ -93,20 +93,28 @@ def gen_cases(ctx, ntypes):
                         count = rng.choice([0, 1, 1, 2, 3, 5])
                         adv = rng.choice(ADVS)
                         pa = ppn if how == "explicit" else 0
-                        cases.append((P, rng.randrange(1 << 30), adv, pa, ppn, 0, flavour, d, count, rng.randrange(1 << 16)))
+                        cases.append((P, rng.randrange(1 << 30), adv, pa, ppn, 0, flavour, d, count, rng.randrange(1 << 16), 1))
     # not attached at all: every flavour must fall back to the basic behaviour
     for _ in range(6 if ctx.quick else 30):
         P = rng.choice([1, 2, 3, 5, 8])
-        cases.append((P, rng.randrange(1 << 30), rng.choice(ADVS), -1, 0, 0, rng.randrange(ntypes), rng.randrange(8), rng.choice([1, 2]), rng.randrange(1 << 16)))
+        cases.append((P, rng.randrange(1 << 30), rng.choice(ADVS), -1, 0, 0, rng.randrange(ntypes), rng.randrange(8), rng.choice([1, 2]), rng.randrange(1 << 16), rng.randrange(2)))
     # node sizes that are not all equal (ppn does not divide P): sc_mpi_comm_attach_node_comms must not attach
     for _ in range(6 if ctx.quick else 30):
         P = rng.choice([3, 5, 7, 8, 10])
         ppn = rng.choice([d for d in range(2, P) if P % d != 0] or [2])
-        cases.append((P, rng.randrange(1 << 30), rng.choice(ADVS), 0, ppn, 0, rng.randrange(ntypes), rng.randrange(8), 1, rng.randrange(1 << 16)))
+        cases.append((P, rng.randrange(1 << 30), rng.choice(ADVS), 0, ppn, 0, rng.randrange(ntypes), rng.randrange(8), 1, rng.randrange(1 << 16), rng.randrange(2)))
     # the dedicated probe of finding F-C14a: round-robin node partition
     for (P, ppn) in ([(8, 4), (9, 3), (4, 2)] if ctx.quick else [(8, 4), (9, 3), (4, 2), (6, 2), (6, 3), (12, 4), (16, 4)]):
         for flavour in range(ntypes):
-            cases.append((P, rng.randrange(1 << 30), rng.choice(ADVS), 0, ppn, 1, flavour, 3, 1, rng.randrange(1 << 16)))
+            cases.append((P, rng.randrange(1 << 30), rng.choice(ADVS), 0, ppn, 1, flavour, 3, 1, rng.randrange(1 << 16), 1))
+    # write rounds that follow each other directly (no barrier between a reader's last read and the next
+    # sc_shmem_write_start): probe of the recorded finding for the window flavours; must hold for the others
+    for _ in range(40 if ctx.quick else 300):
+        P = rng.choice([2, 3, 4, 6, 8])
+        ppn = rng.choice([d for d in range(1, P + 1) if P % d == 0])
+        pa = rng.choice([0, ppn])
+        cases.append((P, rng.randrange(1 << 30), rng.choice(ADVS + [1, 6, 7]), pa, ppn, 0, rng.randrange(ntypes), rng.randrange(8), rng.choice([1, 2]),
+                      rng.randrange(1 << 16), 0))
     return cases
 
 
@@ -149,9 +157,9 @@ def pattern(dseed, rnd, node, n):
 
 
 def judge(ctx, c, r, bad, ntypes):
-    P, seed, adv, pa, ppn, nonc, flavour, d, count, dseed = c
+    P, seed, adv, pa, ppn, nonc, flavour, d, count, dseed, sync = c
     ts = TSIZE[d]
-    key = "%s-P%d-ppn%d-%s%s-%s-n%d" % (FNAME[flavour], P, ppn, "explicit" if pa > 0 else ("none" if pa < 0 else "splittype"), "-roundrobin" if nonc else "", TNAME[d], count)
+    key = "%s%s-P%d-ppn%d-%s-%s-n%d" % ("roundrobin-" if nonc else "", FNAME[flavour], P, ppn, "explicit" if pa > 0 else ("none" if pa < 0 else "splittype"), TNAME[d], count)
     rep = dict(case=list(c), rc=r.rc, report=r.report[:2000])
 
     def viol(kind, text):
@@ -202,11 +210,15 @@ def judge(ctx, c, r, bad, ntypes):
         if pre != exp_pre:
             rep["rank"], rep["got"], rep["expected"] = q, pre, exp_pre
             viol("prefix", "rank %d sees %s after sc_shmem_prefix, expected (0, s0, s0+s1, ...) = %s" % (q, pre[:12], exp_pre[:12]))
+        node = grid[q][2] if grid[q] is not None else 0
         if cp != ag:
             rep["rank"], rep["got"], rep["expected"] = q, cp, ag
-            viol("memcpy", "rank %d: copy differs from its source array" % q)
+            if shared and not sync and hb(o["cp"]) == pattern(dseed, 0, node, P * count * ts):
+                viol("b2b-visible", "rank %d returned from sc_shmem_memcpy and reads the data of the NEXT write round: its node's writer "
+                     "has already passed sc_shmem_write_start and overwritten the array (no synchronisation in write_start)" % q)
+            else:
+                viol("memcpy", "rank %d: copy differs from its source array" % q)
         # write protocol
-        node = grid[q][2] if grid[q] is not None else 0
         for rnd in (0, 1):
             w = int(o["w"][rnd])
             should = 1 if (not shared or grid[q][0] == 0) else 0
@@ -216,8 +228,61 @@ def judge(ctx, c, r, bad, ntypes):
             view = hb(o["w%d" % (rnd + 1)])
             if view != pattern(dseed, rnd, node, P * count * ts):
                 rep["rank"], rep["round"] = q, rnd
-                viol("visible", "rank %d does not see the data written by its node's writer after sc_shmem_write_end (round %d)" % (q, rnd))
+                if shared and not sync and rnd == 0 and view == pattern(dseed, 1, node, P * count * ts):
+                    viol("b2b-visible", "rank %d returned from sc_shmem_write_end of round 0 and reads the data of round 1: its node's writer "
+                         "has already passed the next sc_shmem_write_start and overwritten the array (no synchronisation in write_start)" % q)
+                else:
+                    viol("visible", "rank %d does not see the data written by its node's writer after sc_shmem_write_end (round %d)" % (q, rnd))
     return dict(warnings=len(warns), outs=outs, grid=grid)
+
+
+CODES = {"MPI_Win_unlock": 6, "MPI_Win_free": 10}
+
+
+def rank_calls(trace, P):
+    """per rank: phase name -> list of call codes (see C14/ShmemModel.v) between the harness' trace notes"""
+    by = [[] for _ in range(P)]
+    for e in trace:
+        if 0 <= e.get("r", -1) < P:
+            by[e["r"]].append(e)
+    out = []
+    for q in range(P):
+        world = intra = inter = None
+        phase = None
+        d = {}
+        for e in sorted(by[q], key=lambda e: e.get("s", 0)):
+            f = e.get("f")
+            c = e.get("c")
+            if f == "note":
+                phase = e.get("text")
+                d[phase] = []
+                continue
+            if f == "MPI_Comm_dup" and world is None:
+                world = e.get("newc")
+            elif f in ("MPI_Comm_split", "MPI_Comm_split_type"):
+                if intra is None:
+                    intra = e.get("newc")
+                elif inter is None:
+                    inter = e.get("newc")
+            if phase is None or phase == "end":
+                continue
+            if f == "MPI_Allgather":
+                code = 1 if c == world else (4 if c == inter else 91)
+            elif f == "MPI_Scan":
+                code = 2 if c == world and e.get("op") == "MPI_SUM" else 92
+            elif f == "MPI_Gather":
+                code = 3 if c == intra and e.get("root") == 0 else 93
+            elif f == "MPI_Barrier":
+                code = 5 if c == intra else 95
+            elif f == "MPI_Win_lock":
+                code = (7 if e.get("type") == "exclusive" else 8) if e.get("target") == 0 else 97
+            elif f == "MPI_Win_allocate_shared":
+                code = 9 if c == intra else 99
+            else:
+                code = CODES.get(f, 90)
+            d[phase].append(code)
+        out.append(d)
+    return out
 
 
 def run(ctx):
@@ -248,16 +313,77 @@ def run(ctx):
         ctx.violation("crash", "c14 harness ended with status %s while running %s: %s" % (rc, c, " | ".join(m)[:600] or err[-400:]),
                       dict(case=list(c) if c else None, stderr=err[-3000:]))
     bad = [0]
-    dist = {"P": {}, "ppn": {}, "flavour": {}, "dtype": {}, "count": {}, "adv": {}, "attach": {}, "nocheck_warnings": 0}
+    dist = {"P": {}, "ppn": {}, "flavour": {}, "dtype": {}, "count": {}, "adv": {}, "attach": {}, "rounds": {}, "nocheck_warnings": 0}
+    model_lines, model_cases = [], []
     for c, r in zip(cases, runs):
-        P, seed, adv, pa, ppn, nonc, flavour, d, count, dseed = c
+        P, seed, adv, pa, ppn, nonc, flavour, d, count, dseed, sync = c
         for k, x in (("P", P), ("ppn", ppn), ("flavour", FNAME[flavour]), ("dtype", TNAME[d]), ("count", count), ("adv", adv),
-                     ("attach", "explicit" if pa > 0 else ("none" if pa < 0 else ("split_type_roundrobin" if nonc else "split_type")))):
+                     ("attach", "explicit" if pa > 0 else ("none" if pa < 0 else ("split_type_roundrobin" if nonc else "split_type"))),
+                     ("rounds", "barrier before each write round" if sync else "back to back")):
             dist[k][x] = dist[k].get(x, 0) + 1
         ctx.count_case(c, nontrivial=P > 1)
         res = judge(ctx, c, r, bad, ntypes)
         if res:
             dist["nocheck_warnings"] += res["warnings"]
-    ctx.cov["rule"] = "TODO"
+            contrib = [item(d, dseed, q, k) for q in range(P) for k in range(count)]
+            model_lines.append("%d %d %d %d %d %d %d %s" % (P, pa, ppn, nonc, flavour, d, count, hxl(contrib)))
+            model_cases.append((c, r, res))
+    try:
+        mexe = ctx.model("c14")
+        rc2, mout, err2 = ctx.run_lines([mexe], "\n".join(model_lines) + "\n", timeout=900)
+        mout = [l for l in mout if l != ""]
+        if rc2 != 0 or len(mout) != len(model_lines):
+            ctx.tie_broken("c14 model run", "exit %s, %d of %d lines: %s" % (rc2, len(mout), len(model_lines), err2[-500:]))
+        nmis = 0
+        ncalls = 0
+        for (c, r, res), l in zip(model_cases, mout):
+            P, seed, adv, pa, ppn, nonc, flavour, d, count, dseed, sync = c
+            per = [x.strip() for x in l.split(" | ")]
+            tr = rank_calls(r.trace, P)
+            for q in range(P):
+                m = dict(t.partition("=")[::2] for t in per[q].split()) if q < len(per) else {}
+                o = res["outs"][q]
+                dis = []
+                g = o["grid"]
+                if (m.get("g") == "none") != (g == "-1/-1/-1/-1") or (m.get("g") != "none" and m.get("g") != g):
+                    dis.append("grid model %s impl %s" % (m.get("g"), g))
+                if o["w"] != m.get("w", "?") * 2:
+                    dis.append("write_start model %s impl %s" % (m.get("w"), o["w"]))
+                if hxl(decode(d, hb(o["ag"]))) != m.get("ag"):
+                    dis.append("allgather model %s impl %s" % (m.get("ag"), hxl(decode(d, hb(o["ag"])))))
+                if hxl(decode(d, hb(o["pre"]))) != m.get("pre"):
+                    dis.append("prefix model %s impl %s" % (m.get("pre"), hxl(decode(d, hb(o["pre"])))))
+                mc = (m.get("calls", ";;;;").split(";") + [""] * 5)[:5]
+                expect = {"mA": mc[0], "mB": mc[0], "mC": mc[0], "ag": mc[1], "pre": mc[2], "cp": mc[3], "w1": mc[3], "w2": mc[3],
+                          "fC": mc[4], "fB": mc[4], "fA": mc[4]}
+                for phs, want in expect.items():
+                    got = ",".join(str(x) for x in tr[q].get(phs, ["missing"]))
+                    ncalls += 1
+                    if got != want:
+                        dis.append("MPI calls of phase %s: model [%s] impl [%s]" % (phs, want, got))
+                if dis:
+                    nmis += 1
+                    if nmis <= 3:
+                        ctx.tie_broken("model correspondence, case %s rank %d" % (list(c), q), "; ".join(dis)[:600])
+        ctx.notes["model_rank_reports"] = sum(c[0] for c, _, _ in model_cases)
+        ctx.notes["model_call_sequences"] = ncalls
+        ctx.notes["model_mismatches"] = nmis
+    except vlib.BuildError as e:
+        ctx.tie_broken("c14 model build", str(e)[-1500:])
+    ctx.cov["disagreements_checked"] = len(model_lines)
+    ctx.cov["rule"] = ("runs of the real sc_shmem_* / node communicator code on the simulated MPI: P in %s, every node size dividing P, explicit "
+                       "processes_per_node and MPI_Comm_split_type (contiguous nodes), all 4 flavours, 8 integer datatypes, counts 0..5, all 8 "
+                       "scheduler adversaries; plus: no communicators attached, unequal node sizes (must not attach), and the round-robin node "
+                       "partition as probe of the recorded finding; distinct = distinct parameter tuples; non-trivial = P > 1" % (
+                           "{1,2,3,4,6,8,9,12}" if ctx.quick else "{1..10,12,15,16,18,24}"))
     ctx.notes["distribution"] = dist
+    ctx.notes["nocheck_lock_warnings"] = ("simmpi recorded %d [WARNING] items: sc_shmem_write_start_window takes MPI_Win_lock (EXCLUSIVE, MPI_MODE_NOCHECK) "
+                                          "while other ranks of the node may still hold their SHARED lock; see docs/C14.md" % dist["nocheck_warnings"])
+    for c in cases[:: max(1, len(cases) // 4)][:4]:
+        ctx.sample(dict(P=c[0], seed=c[1], adversary=c[2], ppn_attach=c[3], ppn_sim=c[4], roundrobin=c[5], flavour=FNAME[c[6]], dtype=TNAME[c[7]], count=c[8]))
+    ctx.cov["trusted_base"] = ["tools/simmpi (simulated MPI: collectives, Comm_split/Comm_split_type, shared windows in one address space, "
+                               "window locks with MPI_MODE_NOCHECK never block) and its trace",
+                               "real shared-memory visibility and ordering between processes is outside the model: the simulator runs all ranks in one thread",
+                               "MPI_Scan / MPI_Allgather / MPI_Gather return their specified values (collective specifications of C14/ShmemModel.v)"]
+    ctx.assumptions += ["MPI_Comm_split orders the members of a colour by key, then by rank", "integer sums wrap (two's complement); signed 4/8-byte test data is kept small enough not to overflow"]
     return "proof"
